@@ -31,7 +31,7 @@ typedef struct { T o; char m[LMAX + 1]; int n; } st_t;
 
 enum { K_NEW, K_NEW_PTR, K_NEW_BUFF, K_NEW_NUM,
        K_APP_OBJ, K_PRE_OBJ, K_APP_PTR, K_PRE_PTR, K_APP_CH, K_PRE_CH,
-       K_SPLICE, K_SPLICE_PTR, K_TRIM, K_REV, K_UP, K_DOWN, K_CLEAR, K_SPRINTF, K_DONE, K_DONE_INIT, K_DONE_INIT_PTR, K_APP_SELF, K_PRE_SELF, K_SPLICE_SELF };
+       K_SPLICE, K_SPLICE_PTR, K_TRIM, K_REV, K_UP, K_DOWN, K_CLEAR, K_SPRINTF, K_DONE, K_DONE_INIT, K_DONE_INIT_PTR, K_APP_SELF, K_PRE_SELF, K_SPLICE_SELF, K_SPLICE_OWN };
 typedef struct { int k, a, b, c; const char *t; } op_t;
 static op_t OPS[6000]; static int NOPS;
 static const char *OTHERS[4] = { NULL /* new() */, "", "a", "B " };
@@ -67,6 +67,8 @@ static void build_ops(void)
     for (int i = 0; i < 4; i++) add(K_SPRINTF, i, 0, 0, NULL);
     add(K_DONE, 0, 0, 0, NULL); add(K_DONE_INIT, 0, 0, 0, NULL); add(K_DONE_INIT_PTR, 0, 0, 0, "B");
     add(K_APP_SELF, 0, 0, 0, NULL); add(K_PRE_SELF, 0, 0, 0, NULL); add(K_SPLICE_SELF, 0, 0, 0, NULL); add(K_SPLICE_SELF, 1, 1, 0, NULL);
+    { static const int own[][3] = { { 0, 0, 0 }, { 0, 1, 1 }, { 1, 1, 0 }, { 0, 2, 1 }, { 1, 0, 1 }, { 0, 2, 2 } };
+      for (int i = 0; i < 6; i++) add(K_SPLICE_OWN, own[i][0], own[i][1], own[i][2], NULL); }
 }
 static void op_name(int i, char *b, size_t n)
 {
@@ -97,6 +99,7 @@ static void op_name(int i, char *b, size_t n)
     case K_APP_SELF: snprintf(b, n, "append(self)"); break;
     case K_PRE_SELF: snprintf(b, n, "prepend(self)"); break;
     case K_SPLICE_SELF: snprintf(b, n, "splice(%d,%d,self)", o->a, o->b); break;
+    case K_SPLICE_OWN: snprintf(b, n, "splice_from_ptr(%d,%d,own storage+%d)", o->a, o->b, o->c); break;
     }
 }
 
@@ -152,6 +155,7 @@ static int would_len(st_t *s, op_t *o)
     case K_APP_CH: case K_PRE_CH: return s->n + 1;
     case K_APP_SELF: case K_PRE_SELF: return 2 * s->n;
     case K_SPLICE_SELF: { int i = o->a, c = o->b; if (!splice_norm(s->n, &i, &c)) return s->n; return 2 * s->n - c; }
+    case K_SPLICE_OWN: { int i = o->a, c = o->b; if (!splice_norm(s->n, &i, &c)) return s->n; return 2 * s->n - c - o->c; }
     case K_SPLICE: case K_SPLICE_PTR: { int i = o->a, c = o->b; if (!splice_norm(s->n, &i, &c)) return s->n; return s->n - c + (o->t ? (int) strlen(o->t) : 0); }
     default: return s->n;
     }
@@ -165,6 +169,7 @@ static int enabled(void *vs, int op)
         if (s->n > L) return 0;                               /* over-long constructor results: no splice fan-out */
         if (abs(o->a) > s->n + 2 || abs(o->b) > s->n + 2) return 0;   /* window(n) */
     }
+    if (o->k == K_SPLICE_OWN && (s->n <= o->c || s->n > L)) return 0;        /* the source is the tail of the object's own storage from offset c */
     if (would_len(s, o) > L && would_len(s, o) > s->n) return 0;
     return 1;
 }
@@ -238,6 +243,10 @@ static void apply(void *vs, int op)
     case K_SPLICE_SELF: { int i = o->a, c = o->b, ok = splice_norm(s->n, &i, &c);
         r = F(splice)(self, o->a, o->b, self); expect_r = ok; shape = ok ? "splice with self" : "splice out of range";
         if (ok) { char tmp[LMAX * 3 + 2]; memcpy(tmp, s->m, (size_t) i); memcpy(tmp + i, s->m, (size_t) s->n); memcpy(tmp + i + s->n, s->m + i + c, (size_t) (s->n - i - c)); model_set(s, tmp, 2 * s->n - c); }
+        break; }
+    case K_SPLICE_OWN: { int i = o->a, c = o->b, ok = splice_norm(s->n, &i, &c), sl = s->n - o->c;      /* the caller's pointer stays valid until the call returns: splice builds the result in a new block */
+        r = F(splice_from_ptr)(self, o->a, o->b, self->s + o->c); expect_r = ok; shape = ok ? "splice with a pointer into the object's own storage" : "splice out of range";
+        if (ok) { char tmp[LMAX * 3 + 2]; memcpy(tmp, s->m, (size_t) i); memcpy(tmp + i, s->m + o->c, (size_t) sl); memcpy(tmp + i + sl, s->m + i + c, (size_t) (s->n - i - c)); model_set(s, tmp, s->n - c + sl); }
         break; }
     case K_DONE: r = F(done)(self); model_set(s, "", 0); if (self->s) FAIL(CLS "_done", "model:not-emptied", shape, "buffer still set after done()"); break;
     case K_DONE_INIT: F(done)(self); r = F(init)(self); model_set(s, "", 0); break;
